@@ -274,7 +274,7 @@ pub fn check_case(env: &Env, ctx: &Ctx, case: &Case, hash_seeds: &[u64]) -> (Opt
         };
         // (cases with a parent process only) the scan of the process table ends early or late, in
         // real time: no simulated clock in these runs, a timed wait in delta must see real durations
-        let scan_delay = [0i64, 900, 0, 350][i % 4];
+        let scan_delay = [0i64, 1500, 0, 700][i % 4];
         let rdl = if case.parent.is_some() { vec![] } else { rdl };
         let r = match run(env, &spec_for(case, *hs, rch, rdl, scan_delay), &ctx.dir.join("run"), false) {
             Ok(r) => r,
